@@ -328,7 +328,14 @@ func init() {
 			maxSteps := ex.concreteInt(args[1], "CrashWindow maxsteps")
 			fs.crashAt = ex.draw("crash-step", "int", 64, 0, uint64(maxSteps))
 			fs.partial = ex.draw("crash-partial", "int", 64, 0, 8)
-			fs.crashOn, fs.step = true, 0
+			// two values for the native replay (how to reproduce this crash
+			// with the real kernel), filled in when the window has run
+			metaAt := len(ex.draws)
+			ex.draws = append(ex.draws, DrawRec{Label: "crash-kind", Kind: "meta", W: 64, T: ex.ts.Const(64, 0)},
+				DrawRec{Label: "crash-arg", Kind: "meta", W: 64, T: ex.ts.Const(64, 0)})
+			fs.crashOn, fs.step, fs.crashedAt, fs.log = true, 0, 0, nil
+			renames0 := fs.renames
+			_ = renames0
 			crashed := false
 			depth, try := ex.depth, ex.tryDepth
 			func() {
@@ -345,13 +352,37 @@ func init() {
 			}()
 			ex.depth, ex.tryDepth = depth, try
 			fs.crashOn = false
+			kind, arg := uint64(0), uint64(0)
 			if !crashed {
 				// the crash variable must not name a step that never happened
 				ex.assume(ex.ts.Or(ex.ts.Eq(fs.crashAt, ex.ts.Const(64, 0)), ex.ts.Ult(ex.ts.Const(64, uint64(fs.step)), fs.crashAt)))
 				if fs.step > maxSteps {
 					ex.end(endInconclusive, "crash window has %d file-system steps, more than the declared %d", fs.step, maxSteps)
 				}
+			} else {
+				what := fs.log[fs.crashedAt-1]
+				visibleBefore, writesBefore := false, 0
+				for _, w := range fs.log[:fs.crashedAt-1] {
+					if !strings.HasPrefix(w, "close") && !strings.HasPrefix(w, "sync") {
+						visibleBefore = true
+					}
+					if strings.HasPrefix(w, "write") {
+						writesBefore++
+					}
+				}
+				switch {
+				case strings.HasPrefix(what, "write") && writesBefore == 0:
+					kind, arg = 2, uint64(fs.crashPart)
+				case strings.HasPrefix(what, "rename"):
+					kind, arg = 3, uint64(fs.renames)
+				case !visibleBefore && (strings.HasPrefix(what, "create") || strings.HasPrefix(what, "truncate") || strings.HasPrefix(what, "mkdir")):
+					kind = 1
+				default:
+					kind = 5
+				}
 			}
+			ex.draws[metaAt].T = ex.ts.Const(64, kind)
+			ex.draws[metaAt+1].T = ex.ts.Const(64, arg)
 			return ex.ts.Bool(crashed)
 		},
 		"TrackFootprint": func(ex *Exec, fn *ssa.Function, args []Value, caller *Frame) Value {
